@@ -84,4 +84,12 @@ MUTANTS = [
     {"name": "C18-upstream-shutdown-not-cancel", "property": "C18,C16", "edits": [("server/upstream/server.go", "\t// Close the context to close upstream connections.\n\ts.cancel()\n", "")]},
     {"name": "C18-leave-local-no-marker", "property": "C18,C11", "edits": [("pkg/gossip/state.go", "\tstate.Version++\n\tstate.Entries[leftKey] = Entry{\n\t\tKey:      leftKey,\n\t\tVersion:  state.Version,\n\t\tInternal: true,\n\t}", "")]},
     {"name": "C18-reconnect-backoff-gives-up", "property": "C18", "edits": [("client/upstream.go", "\t\tvar retryableError *websocket.RetryableError\n\t\tif !errors.As(err, &retryableError) {", "\t\tvar retryableError *websocket.RetryableError\n\t\tif true || !errors.As(err, &retryableError) {")]},
+    # ---- C16
+    # (C16-goaway-path-skips-removal: tried; dead code / not an ending at all, equivalent for C16)
+    {"name": "C16-remove-session-not-deferred", "property": "C16,C19", "edits": [("server/upstream/server.go", "\ts.addSession(sess)\n\tdefer s.removeSession(sess)", "\ts.addSession(sess)")]},
+    {"name": "C16-removeconn-skipped-on-expiry", "property": "C16", "edits": [("server/upstream/server.go", "\ts.upstreams.AddConn(upstream)\n\tdefer s.upstreams.RemoveConn(upstream)", "\ts.upstreams.AddConn(upstream)\n\texpired := false\n\tdefer func() {\n\t\tif !expired {\n\t\t\ts.upstreams.RemoveConn(upstream)\n\t\t}\n\t}()"), ("server/upstream/server.go", "\t\t\t\ts.logger.Info(\"upstream token expired\")", "\t\t\t\texpired = true\n\t\t\t\ts.logger.Info(\"upstream token expired\")")]},
+    {"name": "C16-no-deadline-from-token", "property": "C16", "edits": [("server/upstream/server.go", "\t\tif !endpointToken.Expiry.IsZero() {", "\t\tif !endpointToken.Expiry.IsZero() && false {")]},
+    {"name": "C16-deadline-one-second-early", "property": "C16", "edits": [("server/upstream/server.go", "ctx, cancel = context.WithDeadline(ctx, endpointToken.Expiry)", "ctx, cancel = context.WithDeadline(ctx, endpointToken.Expiry.Add(-time.Second))"), ("server/upstream/server.go", "\t\"net/http\"\n\t\"sync\"", "\t\"net/http\"\n\t\"sync\"\n\t\"time\"")]},
+    {"name": "C16-disable-expiry-ignored", "property": "C16", "edits": [("pkg/auth/jwtverifier.go", "if claims.ExpiresAt != nil && !v.disableDisconnectOnExpiry {", "if claims.ExpiresAt != nil {")]},
+    # (C16-shed-closes-without-release: tried; dead code / not an ending at all, equivalent for C16)
 ]
